@@ -207,6 +207,18 @@ def run(ctx):
         sim.dt = dt
         nsteps = rng.randint(1, ctx.scale(30, 200) if order < 10 else 8)
         if long_tp: nsteps = rng.randint(250, 400)
+        hist = None
+        if k % 4 == 3 and n >= 3 and not long_tp:
+            # a simulation object with a history: steps, then a particle is removed (and possibly one added back): the
+            # round trip measured afterwards on the SAME object must still be bit-wise exact
+            hist = rng.choice(["remove", "remove+add", "remove,step,add"])
+            for _ in range(rng.randint(1, 9)): sim.step()
+            sim.remove(rng.randint(1, sim.N - 1))
+            if hist == "remove,step,add": sim.step()
+            if hist != "remove":
+                sim.add(m=10 ** rng.uniform(-6, -3), a=rng.uniform(5, 6), e=0.05, f=rng.uniform(0, 6))
+            n = sim.N
+            if sim.N_active > sim.N: sim.N_active = -1
         sim.step()                      # first step puts the state on the integer grid
         sim.dt = -dt; sim.step(); sim.dt = dt
         s0 = state(sim); i0 = pint_list(sim)
@@ -216,7 +228,7 @@ def run(ctx):
         ctx.case(key=("rt", order, n, nsteps, grav, nact != -1))
         if pint_list(sim) != i0 or any(not vlib.same_bits(a, b) for a, b in zip(state(sim), s0)):
             fails.append({"integrator": "janus", "order": order, "N": n, "scale_pos": sp, "scale_vel": sv, "dt": dt,
-                          "gravity": grav, "N_active": nact, "testparticle_type": sim.testparticle_type,
+                          "gravity": grav, "N_active": nact, "testparticle_type": sim.testparticle_type, "history": hist,
                           "steps": nsteps, "masses": [p.m for p in sim.particles], "state0": [x.hex() for x in s0]})
     if fails:
         f = min(fails, key=lambda d: (d["steps"], d["N"]))
